@@ -239,4 +239,118 @@ theorem cylinder_closedOriented (n : Nat) (hn : 3 ≤ n) :
 
 example : ClosedOriented (cylinderIndices 3) 6 := cylinder_closedOriented 3 (by omega)
 
+/-! ## stacks of rings, sphere -/
+
+/-- edges of a stack of rings -/
+theorem mem_edges_ringStack (c nt k a b : Nat) (hn : 1 ≤ nt) :
+    (a, b) ∈ edges (ringStack c nt k) ↔ StackEdge c nt k a b := by
+  simp only [ringStack, edges_flatMap_range, List.mem_flatMap, List.mem_range, mem_edges_ring _ _ _ _ _ hn, StackEdge]
+
+/-- a stack of rings (`ntheta ≥ 3`) never pushes a directed edge twice -/
+theorem nodup_edges_ringStack (c nt k : Nat) (hn : 3 ≤ nt) : (edges (ringStack c nt k)).Nodup := by
+  simp only [ringStack, edges_flatMap_range]
+  apply nodup_flatMap_range
+  · intro i _
+    apply nodup_edges_ring _ _ _ hn
+    left; simp only [Nat.add_mul, Nat.one_mul]; omega
+  · rintro i j hij hj ⟨a, b⟩ h1 h2
+    rw [mem_edges_ring _ _ _ _ _ (by omega)] at h1 h2
+    obtain ⟨d, rfl⟩ : ∃ d, j = i + 1 + d := ⟨j - (i + 1), by omega⟩
+    rcases d with _ | e
+    · simp only [Nat.add_mul, Nat.one_mul, Nat.add_zero] at h1 h2
+      simp only [RingEdge, Bwd] at h1 h2
+      omega
+    · simp only [Nat.add_mul, Nat.one_mul] at h1 h2
+      have hb := ringEdge_bounds (by omega) h1
+      have hb' := ringEdge_bounds (by omega) h2
+      omega
+
+example : sphereIndices 3 2 = [(0, 1, 2), (0, 2, 3), (0, 3, 1), (1, 4, 2), (2, 4, 3), (3, 4, 1)] := by decide
+
+theorem sphereIndices_eq (nt np : Nat) (hnp : 2 ≤ np) :
+    sphereIndices nt np = reverseClockwising (degTopRing 1 0 nt) ++ ringStack 1 nt (np - 2)
+      ++ degTopRing (1 + (np - 2) * nt) (1 + (np - 2) * nt + nt) nt := by
+  obtain ⟨m, rfl⟩ : ∃ m, np = m + 2 := ⟨np - 2, by omega⟩
+  have h2 : sphereNumVertices nt (m + 2) - 1 = 1 + m * nt + nt := by
+    simp only [sphereNumVertices, show m + 2 - 1 = m + 1 by omega, Nat.add_mul, Nat.one_mul]; omega
+  simp only [sphereIndices, h2, Nat.add_sub_cancel]
+  rfl
+
+theorem mem_edges_sphere (nt np a b : Nat) (hnt : 1 ≤ nt) (hnp : 2 ≤ np) :
+    (a, b) ∈ edges (sphereIndices nt np) ↔
+      FanEdge 1 0 nt b a ∨ StackEdge 1 nt (np - 2) a b ∨ FanEdge (1 + (np - 2) * nt) (1 + (np - 2) * nt + nt) nt a b := by
+  rw [sphereIndices_eq nt np hnp]
+  simp only [edges_append, List.mem_append, mem_edges_reverse, mem_edges_degTopRing _ _ _ _ _ hnt,
+    mem_edges_ringStack _ _ _ _ _ hnt, or_assoc]
+
+/-- **`unit_sphere` / `Ball::to_trimesh`, every `ntheta_subdiv ≥ 3` and `nphi_subdiv ≥ 2`**: the index buffer is a
+closed, consistently oriented surface on its `(nphi - 1)·ntheta + 2` vertices. -/
+theorem sphere_closedOriented (nt np : Nat) (hnt : 3 ≤ nt) (hnp : 2 ≤ np) :
+    ClosedOriented (sphereIndices nt np) (sphereNumVertices nt np) := by
+  have hm := fun a b => mem_edges_sphere nt np a b (by omega) hnp
+  obtain ⟨m, rfl⟩ : ∃ m, np = m + 2 := ⟨np - 2, by omega⟩
+  simp only [Nat.add_sub_cancel] at hm
+  have hV : sphereNumVertices nt (m + 2) = m * nt + nt + 2 := by
+    simp only [sphereNumVertices, show m + 2 - 1 = m + 1 by omega, Nat.add_mul, Nat.one_mul]; omega
+  apply closedOriented_of
+  · intro a b h; rw [hm] at h; rw [hV]
+    rcases h with h | h | h
+    · simp only [FanEdge, Bwd] at h; omega
+    · have := stackEdge_bounds (by omega) h; omega
+    · simp only [FanEdge, Bwd] at h; omega
+  · intro a b h; rw [hm] at h
+    rcases h with h | h | h
+    · simp only [FanEdge, Bwd] at h; omega
+    · exact (stackEdge_bounds (by omega) h).2.2.2.2
+    · simp only [FanEdge, Bwd] at h; omega
+  · rw [sphereIndices_eq nt (m + 2) hnp]
+    simp only [edges_append, Nat.add_sub_cancel]
+    apply nodup_append_of
+    · apply nodup_append_of (nodup_edges_reverse _ (nodup_edges_degTopRing _ _ _ hnt (by omega)))
+        (nodup_edges_ringStack _ _ _ hnt)
+      rintro ⟨a, b⟩ h1 h2
+      rw [mem_edges_reverse, mem_edges_degTopRing _ _ _ _ _ (by omega)] at h1
+      rw [mem_edges_ringStack _ _ _ _ _ (by omega)] at h2
+      have hb := stackEdge_bounds (by omega) h2
+      have hl := stackEdge_low h2
+      simp only [FanEdge, Bwd] at h1 hl
+      omega
+    · exact nodup_edges_degTopRing _ _ _ hnt (by omega)
+    · rintro ⟨a, b⟩ h1 h2
+      rw [mem_edges_degTopRing _ _ _ _ _ (by omega)] at h2
+      rw [List.mem_append, mem_edges_reverse, mem_edges_degTopRing _ _ _ _ _ (by omega),
+        mem_edges_ringStack _ _ _ _ _ (by omega)] at h1
+      rcases h1 with h1 | h1
+      · rcases m with _ | m'
+        · simp only [Nat.zero_mul, Nat.add_zero] at h2
+          simp only [FanEdge, Bwd] at h1 h2
+          omega
+        · simp only [Nat.add_mul, Nat.one_mul] at h2
+          simp only [FanEdge, Bwd] at h1 h2
+          omega
+      · have hb := stackEdge_bounds (by omega) h1
+        have hh := stackEdge_high (by omega) h1
+        simp only [FanEdge, Bwd] at h2 hh
+        omega
+  · intro a b h; rw [hm] at h ⊢
+    rcases h with h | h | h
+    · rcases fanEdge_swap h with h | h
+      · exact Or.inl h
+      · -- the south cap's circle, forwards: its twin is in the first ring, or in the north cap when there is no ring
+        rcases m with _ | m'
+        · right; right; simpa using fanEdge_of_bwd h
+        · right; left; exact stackEdge_of_bwd (by omega) h
+    · rcases stackEdge_swap h with h | h | h
+      · exact Or.inr (Or.inl h)
+      · exact Or.inl (fanEdge_of_bwd h)
+      · exact Or.inr (Or.inr (fanEdge_of_bwd h))
+    · rcases fanEdge_swap h with h | h
+      · exact Or.inr (Or.inr h)
+      · rcases m with _ | m'
+        · left; simpa using fanEdge_of_bwd h
+        · right; left; exact stackEdge_of_fwd (by omega) h
+
+example : ClosedOriented (sphereIndices 3 2) 5 := sphere_closedOriented 3 2 (by omega) (by omega)
+example : ClosedOriented (sphereIndices 7 5) 30 := sphere_closedOriented 7 5 (by omega) (by omega)
+
 end C19
